@@ -5,3 +5,4 @@ import HT.Model.Canary
 import HT.Props.C02
 import HT.Props.C14
 import HT.Props.C17
+import HT.Props.C20
